@@ -106,7 +106,7 @@ extern "C" void proof_append() {
   const int j = nd_u8(); VASSUME(j < T);                    // ghost: any slot
   if (old.tasks._count == T) {
     VASSERT(C07, !ok, "append at capacity returns false");
-    VASSERT(C07, wf_plans(d, g) && d.tasks._count == T, "append at capacity leaves a well-formed full store");
+    VASSERT(C07/C11, wf_plans(d, g) && d.tasks._count == T, "append at capacity leaves a well-formed full store");
     VASSERT(C07, same_task(d, old, j) && d.taskLinks[j].prev == old.taskLinks[j].prev && d.taskLinks[j].next == old.taskLinks[j].next, "append at capacity changes no task and no link");
     for (int q = 0; q < R; ++q) VASSERT(C07, d.taskBounds[q].first == old.taskBounds[q].first && d.taskBounds[q].last == old.taskBounds[q].last, "append at capacity changes no plan");
   } else {
@@ -114,7 +114,7 @@ extern "C" void proof_append() {
     const Long i = d.taskBounds[r].last;
     VASSERT(C07, i < T && tl_vacant(old.tasks, i) && !tl_vacant(d.tasks, i), "append uses a slot that was free");
     Ghost g2 = g; if (i < T) { g2.owner[i] = (uint8_t) r; g2.pos[i] = (uint8_t) oldlen; }
-    VASSERT(C07, wf_plans(d, g2), "append keeps the plans disjoint acyclic lists (task at the END of the addressed region's plan)");
+    VASSERT(C07/C11, wf_plans(d, g2), "append keeps the plans disjoint acyclic lists (task at the END of the addressed region's plan)");
     VASSERT(C07, plan_len(d, g2, r) == oldlen + 1 && d.tasks._count == old.tasks._count + 1, "append: the addressed plan grows by one; lengths add up to the number of stored tasks");
     if (i < T) {
       VASSERT(C07, d.tasks._items[i].origin == o && d.tasks._items[i].destination == dst && d.tasks._items[i].type == ty, "append stores origin, destination and kind");
@@ -142,7 +142,7 @@ extern "C" void proof_remove() {
   plan.remove((Long) i);
   Ghost g2 = g; for (int k = 0; k < T; ++k) if (k != i && !tl_vacant(old.tasks, k) && g.owner[k] == r && g.pos[k] > g.pos[i]) g2.pos[k] = (uint8_t)(g.pos[k] - 1);
   VASSERT(C07, tl_vacant(d.tasks, i), "remove frees the task's slot");
-  VASSERT(C07, wf_plans(d, g2), "remove keeps the plans disjoint acyclic lists, later tasks move up by one");
+  VASSERT(C07/C11, wf_plans(d, g2), "remove keeps the plans disjoint acyclic lists, later tasks move up by one");
   VASSERT(C07, plan_len(d, g2, r) == oldlen - 1 && d.tasks._count == old.tasks._count - 1, "remove: the plan shrinks by one; lengths add up");
   const int j = nd_u8(); VASSUME(j < T && j != i);
   if (!tl_vacant(old.tasks, j)) VASSERT(C07, !tl_vacant(d.tasks, j) && same_task(d, old, j) && g2.owner[j] == g.owner[j], "remove affects only the addressed task");
@@ -178,7 +178,7 @@ extern "C" void proof_clear_tasks() {
   PlanData old = d; const int oldlen = plan_len(d, g, r);
   Plan plan = fx.fsm.plan((RegionID) r);
   plan.clearTasks();
-  VASSERT(C07, wf_plans(d, g), "clearing a plan keeps the store well-formed");
+  VASSERT(C07/C11, wf_plans(d, g), "clearing a plan keeps the store well-formed");
   VASSERT(C07, plan_len(d, g, r) == 0 && d.tasks._count == old.tasks._count - oldlen, "clearing a plan frees exactly its tasks");
   const int j = nd_u8(); VASSUME(j < T);
   if (!tl_vacant(old.tasks, j) && g.owner[j] != r) VASSERT(C07, !tl_vacant(d.tasks, j) && same_task(d, old, j) && d.taskLinks[j].prev == old.taskLinks[j].prev && d.taskLinks[j].next == old.taskLinks[j].next, "clearing a plan affects only that region's tasks");
@@ -187,10 +187,10 @@ extern "C" void proof_clear_tasks() {
 // ------------------------------------------------------------------------------------------------ new / cleared store
 extern "C" void proof_init_clear() {
   Fixture fx; PlanData& d = fx.fsm._core.planData; Ghost g; nd_obj(g);
-  VASSERT(C07, wf_plans(d, g) && d.tasks.count() == 0, "a new plan store is well-formed and empty");
+  VASSERT(C07/C11, wf_plans(d, g) && d.tasks.count() == 0, "a new plan store is well-formed and empty");
   nd_store(d, g);
   d.clear();
-  VASSERT(C07, wf_plans(d, g) && d.tasks.count() == 0, "clear() leaves a well-formed empty store: freed slots are reusable");
+  VASSERT(C07/C11, wf_plans(d, g) && d.tasks.count() == 0, "clear() leaves a well-formed empty store: freed slots are reusable");
   Plan plan = fx.fsm.plan((RegionID) 1);
 #ifdef VP_PAYLOAD
   VASSERT(C07, plan.append(1, 2, TransitionType::CHANGE, 5), "append works after clear()");
